@@ -1279,6 +1279,11 @@ namespace cds { namespace intrusive {
 
                     if ( pCur.ptr() == nullptr ) {
                         // end of the list at level nLevel - goto next level
+                        if ( nLevel == 0 && pPred != m_Head.head()) {
+                            // the node we were going to step to has just been removed: pPred is the last node now,
+                            // but the position of its predecessors is unknown - walk again
+                            goto retry;
+                        }
                         break;
                     }
 
